@@ -132,6 +132,7 @@ fn worker(prop: &str, tier: &str, seed: u64, start: u64, stride: u64, count: u64
         if let Ok(want) = std::env::var("XS_SIM_DUMP_TRACE") {
             if want == idx.to_string() {
                 let _ = std::fs::write(format!("/tmp/trace-{}-{}-{}.txt", idx, stride, std::process::id()), r.trace.join("\n"));
+
             }
         }
         all_hashes.push((idx, h));
